@@ -60,20 +60,24 @@ AGAIN:
 }
 
 func (c *ConnWithContext) Write(b []byte) (int, error) {
+	// A write which times out can be partial: the retry must continue with
+	// the rest of the buffer, not send its beginning again.
+	written := 0
 AGAIN:
 	select {
 	case <-c.ctx.Done():
-		return 0, c.ctx.Err()
+		return written, c.ctx.Err()
 	default:
 		// continue
 	}
 
 	err := c.conn.SetWriteDeadline(time.Now().Add(c.timeout))
 	if err != nil {
-		return 0, err
+		return written, err
 	}
 
-	n, err := c.conn.Write(b)
+	n, err := c.conn.Write(b[written:])
+	written += n
 	if err != nil {
 		switch e := err.(type) {
 		case net.Error:
@@ -84,7 +88,7 @@ AGAIN:
 			goto AGAIN
 		}
 	}
-	return n, err
+	return written, err
 }
 
 func (c *ConnWithContext) Close() error {
